@@ -506,7 +506,7 @@ pub fn property() -> Property {
         gen,
         check,
         finalize: no_finalize,
-        rule: "one evaluation = one simulated execution: (W) 1-4 real Server workers with per-client or aggregated recorders, a per-run address-tracking limit {2,3,8,5000000} (hook H7), an address pool of 1-6 source addresses over 24 sockets, status timers of 100-300 ms pushing snapshots to the real queue (drained by a harness task), injected send failures and health connections; or (F) the real main() with client_stats on, the real Reporter thread merging the workers' snapshots and persisting zstd CSV files to the in-memory file system; the kernel tap (datagrams each worker received and answered, bytes, failed sends, accepted health connections, per source address) is the reference; non-trivial = workers received datagrams; distinct = distinct schedule fingerprints",
+        rule: "one evaluation = one simulated execution: (W) 1-4 real Server workers with per-client or aggregated recorders, a per-run address-tracking limit {2,3,8,5000000} (hook H7), an address pool of 1-6 source addresses over 24 sockets, status timers of 100-300 ms pushing snapshots to the real queue (drained by a harness task), injected send failures and health connections; or (F) the real main() with client_stats on, the real Reporter thread merging the workers' snapshots and persisting zstd CSV files to the in-memory file system; or (D, one run in twelve) the real Reporter alone on a queue of its own, a harness task in the role of the workers handing it snapshots with chosen magnitudes (beyond 32 bits for bytes) at seeded times, every persisted per-address sum equal to what was handed over; the kernel tap (datagrams each worker received and answered, bytes, failed sends, accepted health connections, per source address) is the reference; non-trivial = workers received datagrams; distinct = distinct schedule fingerprints",
         assumptions: &["claimed part: system-level conservation; bounded-exhaustive enumeration of recorder call sequences on bare objects is input enumeration and is not claimed", "the server's own accept/reject decision per datagram is read from its behaviour (answered = valid of that protocol, unanswered = invalid)", "status_interval >= 20 s in F mode so that the bounded stats queue (2 x workers) never displaces a snapshot"],
         real: REAL_F,
         stub: STUB,
